@@ -568,4 +568,503 @@ theorem run_preserves (c : Circuit) (ms : List Move) (c' : Circuit) (hinv : c.Em
       rw [hs] at h
       exact ih c1 (step_preserves c m c1 hinv hs) h
 
+/-! ## 5. initial circuits -/
+
+/-! ### `get_emission_assignment` stays below `n_emitter` -/
+
+structure EAInv (ne : Nat) (s : EAState) (k : Nat) : Prop where
+  lt : ∀ x, x ∈ s.assignment → x < ne
+  used_pos : 1 ≤ s.used
+  used_le : s.used ≤ ne
+  avail_le : s.avail ≤ ne
+  avail_eq : s.used < ne → s.avail = s.used + 1
+  len : s.ok = true → s.assignment.length = k
+
+theorem eaStep_inv (np ne : Nat) (s : EAState) (k i : Nat) (hi : i < np) (h : EAInv ne s k) :
+    EAInv ne (eaStep np ne s i) (k + 1) := by
+  obtain ⟨hlt, hup, hul, hal, hae, hlen⟩ := h
+  unfold eaStep
+  split
+  · rename_i hforced
+    have hu : s.used < ne := by omega
+    refine ⟨?_, ?_, ?_, ?_, ?_, ?_⟩
+    · intro x hx
+      simp only [List.mem_append, List.mem_singleton] at hx
+      rcases hx with hx | rfl
+      · exact hlt x hx
+      · exact hu
+    · simp only; omega
+    · simp only; omega
+    · simp only; split <;> omega
+    · simp only; intro h; rw [if_pos h]; have := hae hu; omega
+    · simp only [List.length_append, List.length_singleton]; intro h; rw [hlen h]
+  · cases hd : s.draws with
+    | nil => exact ⟨hlt, hup, hul, hal, hae, fun h => by simp at h⟩
+    | cons d ds =>
+      simp only
+      split
+      · rename_i hdlt
+        split
+        · rename_i hnew
+          refine ⟨?_, ?_, ?_, ?_, ?_, ?_⟩
+          · intro x hx
+            simp only [List.mem_append, List.mem_singleton] at hx
+            rcases hx with hx | rfl
+            · exact hlt x hx
+            · omega
+          · simp only; omega
+          · simp only; omega
+          · simp only; split <;> omega
+          · simp only; intro h; rw [if_pos h]; have := hae hnew.2; omega
+          · simp only [List.length_append, List.length_singleton]; intro h; rw [hlen h]
+        · refine ⟨?_, hup, hul, hal, hae, ?_⟩
+          · intro x hx
+            simp only [List.mem_append, List.mem_singleton] at hx
+            rcases hx with hx | rfl
+            · exact hlt x hx
+            · omega
+          · simp only [List.length_append, List.length_singleton]; intro h; rw [hlen h]
+      · exact ⟨hlt, hup, hul, hal, hae, fun h => by simp at h⟩
+
+theorem ea_fold_inv (np ne : Nat) (l : List Nat) (s : EAState) (k : Nat) (hl : ∀ i, i ∈ l → i < np)
+    (h : EAInv ne s k) : EAInv ne (l.foldl (eaStep np ne) s) (k + l.length) := by
+  induction l generalizing s k with
+  | nil => simpa using h
+  | cons i l ih =>
+    simp only [List.foldl_cons, List.length_cons]
+    have := ih (eaStep np ne s i) (k + 1) (fun j hj => hl j (List.mem_cons_of_mem _ hj))
+      (eaStep_inv np ne s k i (hl i List.mem_cons_self) h)
+    rw [show k + (l.length + 1) = k + 1 + l.length by omega]
+    exact this
+
+/-- every photon is assigned an existing emitter, and there is one entry per photon -/
+theorem getEmissionAssignment_bound (np ne : Nat) (draws ea : List Nat) (hne : 1 ≤ ne) (hnp : 1 ≤ np)
+    (h : getEmissionAssignment np ne draws = some ea) : (∀ x, x ∈ ea → x < ne) ∧ ea.length = np := by
+  unfold getEmissionAssignment at h
+  split at h
+  · rename_i h1
+    cases h
+    exact ⟨fun x hx => by rw [List.mem_replicate] at hx; omega, by simp⟩
+  · rename_i h1
+    simp only at h
+    split at h
+    · rename_i hok
+      cases h
+      have h0 : EAInv ne ⟨[0], 2, 1, draws, true⟩ 1 :=
+        ⟨fun x hx => by simp at hx; omega, by simp, by simp; omega, by simp; omega, fun _ => rfl, fun _ => rfl⟩
+      have := ea_fold_inv np ne (List.range' 1 (np - 1)) _ 1
+        (fun i hi => by rw [List.mem_range'_1] at hi; omega) h0
+      refine ⟨this.lt, ?_⟩
+      rw [this.len hok, List.length_range']
+      omega
+    · cases h
+
+/-! ### `add`: appending an operation at the end of its wires -/
+
+theorem mem_sortRegs (l : List Reg) (r : Reg) : r ∈ sortRegs l ↔ r ∈ l := by
+  induction l with
+  | nil => simp [sortRegs]
+  | cons a l ih =>
+    have h := List.takeWhile_append_dropWhile (p := fun x : Reg => decide (x.sortKey < a.sortKey)) (l := sortRegs l)
+    have hm : r ∈ sortRegs l ↔
+        r ∈ (sortRegs l).takeWhile (fun x => decide (x.sortKey < a.sortKey)) ∨
+        r ∈ (sortRegs l).dropWhile (fun x => decide (x.sortKey < a.sortKey)) := by
+      rw [← List.mem_append, h]
+    show r ∈ (sortRegs l).takeWhile _ ++ a :: (sortRegs l).dropWhile _ ↔ _
+    rw [List.mem_append, List.mem_cons, List.mem_cons, ← ih, hm]
+    constructor
+    · rintro (h | h | h)
+      · exact Or.inr (Or.inl h)
+      · exact Or.inl h
+      · exact Or.inr (Or.inr h)
+    · rintro (h | h | h)
+      · exact Or.inr (Or.inl h)
+      · exact Or.inl h
+      · exact Or.inr (Or.inr h)
+
+theorem addRegIfAbsent_of_valid (c : Circuit) (r : Reg) (h : c.validReg r = true) : c.addRegIfAbsent r = .ok c := by
+  unfold Circuit.addRegIfAbsent
+  simp only [Circuit.validReg, decide_eq_true_eq] at h
+  rw [if_pos h]
+
+theorem foldlM_ok_const {α : Type} (f : Circuit → α → Except Err Circuit) (c : Circuit) (l : List α)
+    (h : ∀ x, x ∈ l → f c x = .ok c) : l.foldlM f c = .ok c := by
+  induction l with
+  | nil => rfl
+  | cons a l ih =>
+    rw [List.foldlM_cons, h a List.mem_cons_self]
+    exact ih (fun x hx => h x (List.mem_cons_of_mem _ hx))
+
+theorem add_of_valid (c : Circuit) (op : Op) (hq : ∀ r, r ∈ op.q → c.validReg r = true)
+    (hc : ∀ i, i ∈ op.cr → c.validReg ⟨.c, i⟩ = true) : c.add op = .ok (c.addCore op) := by
+  unfold Circuit.add
+  rw [foldlM_ok_const _ c op.cr (fun i hi => addRegIfAbsent_of_valid c _ (hc i hi))]
+  show (do let c2 ← (sortRegs op.q).foldlM (fun (c' : Circuit) r => c'.addRegIfAbsent r) c; pure (c2.addCore op)) = _
+  rw [foldlM_ok_const _ c (sortRegs op.q) (fun r hr => addRegIfAbsent_of_valid c _ (hq r ((mem_sortRegs _ _).mp hr)))]
+  rfl
+
+/-- the edges `_add` splices the node into -/
+def endEdges (c : Circuit) (op : Op) : List Edge := op.addRegs.map fun r => ⟨r, (c.wire r).length⟩
+
+theorem addCore_eq (c : Circuit) (op : Op) : c.addCore op = c.insertAt op (endEdges c op) := rfl
+
+theorem endEdges_regs (c : Circuit) (op : Op) : (endEdges c op).map (·.r) = op.addRegs := by
+  simp [endEdges, Function.comp_def]
+
+theorem mem_endEdges {c : Circuit} {op : Op} {e : Edge} (h : e ∈ endEdges c op) :
+    e.r ∈ op.addRegs ∧ e.pos = (c.wire e.r).length := by
+  simp only [endEdges, List.mem_map] at h
+  obtain ⟨r, hr, rfl⟩ := h
+  exact ⟨hr, rfl⟩
+
+theorem dst_end (c : Circuit) (e : Edge) (h : e.pos = (c.wire e.r).length) : c.dst e = V.out e.r := by
+  simp [Circuit.dst, h]
+
+theorem ins_end (w : List Nat) (k : Nat) : ins w w.length k = w ++ [k] := by simp [ins]
+
+theorem adj_snoc_left {α : Type} {A : List α} {z a b : α} (h : Adj (A ++ [z]) a b) : a ∈ A := by
+  induction A with
+  | nil => simp [Adj] at h
+  | cons x A ih =>
+    cases A with
+    | nil =>
+      simp only [Adj, List.cons_append, List.nil_append, pairs_cons_cons, pairs_singleton, List.mem_singleton,
+        Prod.mk.injEq] at h
+      simp [h.1]
+    | cons y A' =>
+      simp only [Adj, List.cons_append, pairs_cons_cons, List.mem_cons, Prod.mk.injEq] at h
+      rcases h with ⟨rfl, _⟩ | h
+      · exact List.mem_cons_self
+      · exact List.mem_cons_of_mem _ (ih h)
+
+theorem out_no_succ (c : Circuit) (r : Reg) (b : V) : ¬ c.E (V.out r) b := by
+  intro h
+  obtain ⟨r', _, hadj⟩ := (E_iff c _ _).mp h
+  have : c.aug r' = (V.inp r' :: (c.wire r').map V.op) ++ [V.out r'] := by simp [Circuit.aug]
+  rw [this] at hadj
+  have hm := adj_snoc_left hadj
+  simp at hm
+
+theorem reach_from_out (c : Circuit) (r : Reg) (x : V) (h : ReflTransGen c.E (V.out r) x) : x = V.out r := by
+  rcases ReflTransGen.cases_head h with h | ⟨y, hy, _⟩
+  · exact h.symm
+  · exact absurd hy (out_no_succ c r y)
+
+theorem acyclic_addCore (c : Circuit) (op : Op) (hwf : c.WF) (hac : c.Acyclic) (hnd : op.addRegs.Nodup) :
+    (c.addCore op).Acyclic := by
+  rw [addCore_eq]
+  refine acyclic_insertAt c op _ hwf hac (by rw [endEdges_regs]; exact hnd) ?_
+  intro e1 _ e2 he2 hreach
+  rw [dst_end c e2 (mem_endEdges he2).2] at hreach
+  have := reach_from_out c _ _ hreach
+  rcases src_cases c e1 with h | ⟨n, _, h⟩ <;> rw [h] at this <;> cases this
+
+theorem WF_addCore (c : Circuit) (op : Op) (hwf : c.WF) (hnd : op.addRegs.Nodup)
+    (hqv : ∀ r, r ∈ op.q → c.validReg r = true ∧ r.ty ≠ .c) (hcv : ∀ i, i ∈ op.cr → c.validReg ⟨.c, i⟩ = true) :
+    (c.addCore op).WF := by
+  rw [addCore_eq]
+  refine WF_insertAt c op _ hwf (by rw [endEdges_regs]; exact hnd) ?_ ?_ ?_ hqv
+  · intro e he
+    have := (mem_endEdges he).1
+    simp only [Op.addRegs, List.mem_append, List.mem_map] at this
+    rcases this with h | ⟨i, hi, h⟩
+    · exact (hqv _ h).1
+    · rw [← h]; exact hcv i hi
+  · intro r hr
+    rw [endEdges_regs]
+    simp only [Op.addRegs, List.mem_append, List.mem_map]
+    constructor
+    · rintro (h | ⟨i, _, h⟩)
+      · exact h
+      · exact absurd (by rw [← h]) hr
+    · exact Or.inl
+  · intro i hi
+    rw [endEdges_regs] at hi
+    simp only [Op.addRegs, List.mem_append, List.mem_map] at hi
+    rcases hi with h | ⟨i', hi', h⟩
+    · exact absurd rfl (hqv _ h).2
+    · cases h; exact hi'
+
+theorem addCore_wire (c : Circuit) (op : Op) (hnd : op.addRegs.Nodup) (r : Reg) :
+    (c.addCore op).wire r = if r ∈ op.addRegs then c.wire r ++ [c.nid + 1] else c.wire r := by
+  rw [addCore_eq]
+  split
+  · rename_i h
+    have he : (⟨r, (c.wire r).length⟩ : Edge) ∈ endEdges c op := List.mem_map.mpr ⟨r, h, rfl⟩
+    have := insertAt_wire_of_mem c op (endEdges c op) (by rw [endEdges_regs]; exact hnd) _ he
+    simp only at this
+    rw [this, ins_end]
+  · rename_i h
+    exact insertAt_wire_of_not_mem c op _ r (by rw [endEdges_regs]; exact h)
+
+/-! ### the emission constraints while photons are still being emitted -/
+
+structure Circuit.EmitPre (c : Circuit) : Prop where
+  noPP : ∀ n op, c.node n = some op → ∀ r1 r2, op.q = [r1, r2] → ¬ (r1.ty = .p ∧ r2.ty = .p)
+  photon : ∀ j, j < c.np → c.wire ⟨.p, j⟩ = [] ∨
+    ∃ h rest, c.wire ⟨.p, j⟩ = h :: rest ∧ c.isEmission j h ∧ ∀ n, n ∈ rest → c.laterOk j n
+
+theorem EmitC_of_pre (c : Circuit) (h : c.EmitPre) (hne : ∀ j, j < c.np → c.wire ⟨.p, j⟩ ≠ []) : c.EmitC :=
+  ⟨h.noPP, fun j hj => (h.photon j hj).resolve_left (hne j hj)⟩
+
+theorem EmitPre_addCore (c : Circuit) (op : Op) (hwf : c.WF) (hem : c.EmitPre) (hnd : op.addRegs.Nodup)
+    (hpp : ∀ r1 r2, op.q = [r1, r2] → ¬ (r1.ty = .p ∧ r2.ty = .p))
+    (hph : ∀ j, (⟨.p, j⟩ : Reg) ∈ op.addRegs →
+      (c.wire ⟨.p, j⟩ = [] ∧ ∃ i, op = ⟨.cnot, [⟨.e, i⟩, ⟨.p, j⟩], [], true⟩) ∨
+      (c.wire ⟨.p, j⟩ ≠ [] ∧ ((op.kind.isGate1 = true ∧ op.q = [⟨.p, j⟩]) ∨
+       (op.kind.isClassicalControlled = true ∧ ∃ i, op.q = [⟨.e, i⟩, ⟨.p, j⟩])))) :
+    (c.addCore op).EmitPre := by
+  have hnode : ∀ r n, n ∈ c.wire r → (c.addCore op).node n = c.node n := fun r n hn => by
+    have := hwf.wire_le hn
+    rw [addCore_eq, insertAt_node, if_neg (by omega)]
+  have hnodek : (c.addCore op).node (c.nid + 1) = some op := by rw [addCore_eq, insertAt_node, if_pos rfl]
+  constructor
+  · intro n op' h r1 r2 hq
+    rw [addCore_eq, insertAt_node] at h
+    by_cases hn : n = c.nid + 1
+    · rw [if_pos hn] at h; cases h; exact hpp r1 r2 hq
+    · rw [if_neg hn] at h; exact hem.noPP n op' h r1 r2 hq
+  · intro j hj
+    have hj' : j < c.np := by rw [addCore_eq, insertAt_np] at hj; exact hj
+    rw [addCore_wire c op hnd]
+    by_cases hr : (⟨.p, j⟩ : Reg) ∈ op.addRegs
+    · rw [if_pos hr]
+      right
+      rcases hph j hr with ⟨hempty, i, hop⟩ | ⟨hne, hshape⟩
+      · refine ⟨c.nid + 1, [], by rw [hempty]; rfl, ⟨i, by rw [hnodek, hop]⟩, fun n hn => by cases hn⟩
+      · rcases hem.photon j hj' with h | ⟨h, rest, hw, hemi, hlater⟩
+        · exact absurd h hne
+        · have hh : h ∈ c.wire ⟨.p, j⟩ := by rw [hw]; exact List.mem_cons_self
+          refine ⟨h, rest ++ [c.nid + 1], by rw [hw]; rfl, isEmission_congr (hnode _ h hh) hemi, ?_⟩
+          intro n hn
+          rcases List.mem_append.mp hn with hn | hn
+          · exact laterOk_congr (hnode _ n (by rw [hw]; exact List.mem_cons_of_mem _ hn)) (hlater n hn)
+          · simp only [List.mem_singleton] at hn
+            subst hn
+            exact ⟨op, hnodek, hshape⟩
+    · rw [if_neg hr]
+      rcases hem.photon j hj' with h | ⟨h, rest, hw, hemi, hlater⟩
+      · exact Or.inl h
+      · have hh : h ∈ c.wire ⟨.p, j⟩ := by rw [hw]; exact List.mem_cons_self
+        refine Or.inr ⟨h, rest, hw, isEmission_congr (hnode _ h hh) hemi, fun n hn => ?_⟩
+        exact laterOk_congr (hnode _ n (by rw [hw]; exact List.mem_cons_of_mem _ hn)) (hlater n hn)
+
+/-! ### `initialization` -/
+
+structure InitInv (c : Circuit) (ne np i : Nat) : Prop where
+  wf : c.WF
+  ac : c.Acyclic
+  pre : c.EmitPre
+  hne : c.ne = ne
+  hnp : c.np = np
+  hnc : c.nc = 1
+  filled : ∀ j, j < i → c.wire ⟨.p, j⟩ ≠ []
+  empty : ∀ j, i ≤ j → c.wire ⟨.p, j⟩ = []
+
+theorem addCore_ne (c : Circuit) (op : Op) : (c.addCore op).ne = c.ne := insertAt_ne _ _ _
+theorem addCore_np (c : Circuit) (op : Op) : (c.addCore op).np = c.np := insertAt_np _ _ _
+theorem addCore_nc (c : Circuit) (op : Op) : (c.addCore op).nc = c.nc := insertAt_nc _ _ _
+
+theorem validReg_e (c : Circuit) (a : Nat) (h : a < c.ne) : c.validReg ⟨.e, a⟩ = true := by
+  simp [Circuit.validReg, Circuit.count, h]
+theorem validReg_p (c : Circuit) (a : Nat) (h : a < c.np) : c.validReg ⟨.p, a⟩ = true := by
+  simp [Circuit.validReg, Circuit.count, h]
+theorem validReg_c (c : Circuit) (a : Nat) (h : a < c.nc) : c.validReg ⟨.c, a⟩ = true := by
+  simp [Circuit.validReg, Circuit.count, h]
+
+/-- one iteration of the photon loop: emission CNOT, then the `[Identity, Hadamard]` wrapper -/
+theorem init_photon_step (c : Circuit) (ne np i a : Nat) (h : InitInv c ne np i) (hi : i < np) (ha : a < ne) :
+    ∃ c2, (do let c' ← c.add (emissionOp a i); c'.add (initWrapperOp i)) = Except.ok c2 ∧ InitInv c2 ne np (i + 1) := by
+  obtain ⟨hwf, hac, hpre, hne, hnp, hnc, hfill, hempty⟩ := h
+  -- first operation
+  have hnd1 : (emissionOp a i).addRegs.Nodup := by simp [emissionOp, Op.addRegs]
+  have hq1 : ∀ r, r ∈ (emissionOp a i).q → c.validReg r = true ∧ r.ty ≠ .c := by
+    intro r hr
+    simp only [emissionOp, List.mem_cons, List.not_mem_nil, or_false] at hr
+    rcases hr with rfl | rfl
+    · exact ⟨validReg_e c a (by omega), by simp⟩
+    · exact ⟨validReg_p c i (by omega), by simp⟩
+  have hc1 : ∀ j, j ∈ (emissionOp a i).cr → c.validReg ⟨.c, j⟩ = true := by intro j hj; simp [emissionOp] at hj
+  have hadd1 := add_of_valid c (emissionOp a i) (fun r hr => (hq1 r hr).1) hc1
+  have hwf1 := WF_addCore c _ hwf hnd1 hq1 hc1
+  have hac1 := acyclic_addCore c _ hwf hac hnd1
+  have hpre1 : (c.addCore (emissionOp a i)).EmitPre := by
+    refine EmitPre_addCore c _ hwf hpre hnd1 ?_ ?_
+    · intro r1 r2 hq
+      simp only [emissionOp, List.cons.injEq, and_true] at hq
+      rintro ⟨hp, _⟩; rw [← hq.1] at hp; cases hp
+    · intro j hj
+      simp only [emissionOp, Op.addRegs, List.map_nil, List.append_nil, List.mem_cons, Reg.mk.injEq,
+        List.not_mem_nil, or_false] at hj
+      rcases hj with ⟨h, _⟩ | ⟨_, rfl⟩
+      · cases h
+      · exact Or.inl ⟨hempty j (Nat.le_refl _), a, rfl⟩
+  have hw1 : ∀ j, (c.addCore (emissionOp a i)).wire ⟨.p, j⟩ =
+      if j = i then c.wire ⟨.p, j⟩ ++ [c.nid + 1] else c.wire ⟨.p, j⟩ := by
+    intro j
+    rw [addCore_wire c _ hnd1]
+    simp [emissionOp, Op.addRegs]
+  -- second operation
+  let c1 := c.addCore (emissionOp a i)
+  have hnd2 : (initWrapperOp i).addRegs.Nodup := by simp [initWrapperOp, Op.addRegs]
+  have hq2 : ∀ r, r ∈ (initWrapperOp i).q → c1.validReg r = true ∧ r.ty ≠ .c := by
+    intro r hr
+    simp only [initWrapperOp, List.mem_singleton] at hr
+    subst hr
+    exact ⟨validReg_p c1 i (by show i < (c.addCore _).np; rw [addCore_np]; omega), by simp⟩
+  have hc2 : ∀ j, j ∈ (initWrapperOp i).cr → c1.validReg ⟨.c, j⟩ = true := by intro j hj; simp [initWrapperOp] at hj
+  have hadd2 := add_of_valid c1 (initWrapperOp i) (fun r hr => (hq2 r hr).1) hc2
+  have hw2 : ∀ j, (c1.addCore (initWrapperOp i)).wire ⟨.p, j⟩ =
+      if j = i then c1.wire ⟨.p, j⟩ ++ [c1.nid + 1] else c1.wire ⟨.p, j⟩ := by
+    intro j
+    rw [addCore_wire c1 _ hnd2]
+    simp [initWrapperOp, Op.addRegs]
+  refine ⟨c1.addCore (initWrapperOp i), ?_, ?_⟩
+  · rw [hadd1]
+    exact hadd2
+  · refine ⟨WF_addCore c1 _ hwf1 hnd2 hq2 hc2, acyclic_addCore c1 _ hwf1 hac1 hnd2, ?_, ?_, ?_, ?_, ?_, ?_⟩
+    · refine EmitPre_addCore c1 _ hwf1 hpre1 hnd2 ?_ ?_
+      · intro r1 r2 hq; simp [initWrapperOp] at hq
+      · intro j hj
+        simp only [initWrapperOp, Op.addRegs, List.map_nil, List.append_nil, List.mem_singleton, Reg.mk.injEq,
+          true_and] at hj
+        subst hj
+        refine Or.inr ⟨?_, Or.inl ⟨rfl, rfl⟩⟩
+        show (c.addCore _).wire _ ≠ []
+        rw [hw1, if_pos rfl]; simp
+    · rw [addCore_ne]; show (c.addCore _).ne = ne; rw [addCore_ne]; exact hne
+    · rw [addCore_np]; show (c.addCore _).np = np; rw [addCore_np]; exact hnp
+    · rw [addCore_nc]; show (c.addCore _).nc = 1; rw [addCore_nc]; exact hnc
+    · intro j hj
+      rw [hw2]
+      split
+      · simp
+      · rename_i hji
+        show (c.addCore _).wire _ ≠ []
+        rw [hw1, if_neg hji]
+        exact hfill j (by omega)
+    · intro j hj
+      have hji : j ≠ i := by omega
+      rw [hw2, if_neg hji]
+      show (c.addCore _).wire _ = []
+      rw [hw1, if_neg hji]
+      exact hempty j (by omega)
+
+theorem init_photon_loop (ne np : Nat) (l : List Nat) (i : Nat) (c : Circuit) (h : InitInv c ne np i)
+    (hl : ∀ x, x ∈ l → x < ne) (hlen : i + l.length ≤ np) :
+    ∃ c', (l.zipIdx i).foldlM (fun c (ai : Nat × Nat) => do
+        let c' ← c.add (emissionOp ai.1 ai.2)
+        c'.add (initWrapperOp ai.2)) c = Except.ok c' ∧ InitInv c' ne np (i + l.length) := by
+  induction l generalizing i c with
+  | nil => exact ⟨c, rfl, by simpa using h⟩
+  | cons a l ih =>
+    simp only [List.length_cons] at hlen
+    obtain ⟨c2, hc2, hinv2⟩ := init_photon_step c ne np i a h (by omega) (hl a List.mem_cons_self)
+    obtain ⟨c', hc', hinv'⟩ := ih (i + 1) c2 hinv2 (fun x hx => hl x (List.mem_cons_of_mem _ hx)) (by omega)
+    refine ⟨c', ?_, by rw [List.length_cons, show i + (l.length + 1) = i + 1 + l.length by omega]; exact hinv'⟩
+    rw [List.zipIdx_cons, List.foldlM_cons]
+    simp only at hc2 ⊢
+    rw [hc2]
+    exact hc'
+
+/-- invariants of the measurement loop: every photon has been emitted -/
+structure InitInv2 (c : Circuit) (ne np : Nat) : Prop where
+  wf : c.WF
+  ac : c.Acyclic
+  pre : c.EmitPre
+  hne : c.ne = ne
+  hnp : c.np = np
+  hnc : c.nc = 1
+  filled : ∀ j, j < np → c.wire ⟨.p, j⟩ ≠ []
+
+theorem init_mcr_step (c : Circuit) (ne np j t : Nat) (h : InitInv2 c ne np) (hj : j < ne) (ht : t < np) :
+    ∃ c2, c.add (finalMcrOp j t) = Except.ok c2 ∧ InitInv2 c2 ne np := by
+  obtain ⟨hwf, hac, hpre, hne, hnp, hnc, hfill⟩ := h
+  have hnd : (finalMcrOp j t).addRegs.Nodup := by simp [finalMcrOp, Op.addRegs]
+  have hq : ∀ r, r ∈ (finalMcrOp j t).q → c.validReg r = true ∧ r.ty ≠ .c := by
+    intro r hr
+    simp only [finalMcrOp, List.mem_cons, List.not_mem_nil, or_false] at hr
+    rcases hr with rfl | rfl
+    · exact ⟨validReg_e c j (by omega), by simp⟩
+    · exact ⟨validReg_p c t (by omega), by simp⟩
+  have hc : ∀ i, i ∈ (finalMcrOp j t).cr → c.validReg ⟨.c, i⟩ = true := by
+    intro i hi
+    simp only [finalMcrOp, List.mem_singleton] at hi
+    subst hi
+    exact validReg_c c 0 (by omega)
+  refine ⟨c.addCore (finalMcrOp j t), add_of_valid c _ (fun r hr => (hq r hr).1) hc, ?_⟩
+  refine ⟨WF_addCore c _ hwf hnd hq hc, acyclic_addCore c _ hwf hac hnd, ?_, by rw [addCore_ne]; exact hne,
+          by rw [addCore_np]; exact hnp, by rw [addCore_nc]; exact hnc, ?_⟩
+  · refine EmitPre_addCore c _ hwf hpre hnd ?_ ?_
+    · intro r1 r2 hq'
+      simp only [finalMcrOp, List.cons.injEq, and_true] at hq'
+      rintro ⟨hp, _⟩; rw [← hq'.1] at hp; cases hp
+    · intro j' hj'
+      simp only [finalMcrOp, Op.addRegs, List.map_cons, List.map_nil, List.cons_append, List.nil_append,
+        List.mem_cons, Reg.mk.injEq, List.not_mem_nil, or_false] at hj'
+      rcases hj' with ⟨h, _⟩ | ⟨_, rfl⟩ | ⟨h, _⟩
+      · cases h
+      · exact Or.inr ⟨hfill _ ht, Or.inr ⟨rfl, j, rfl⟩⟩
+      · cases h
+  · intro j' hj'
+    rw [addCore_wire c _ hnd]
+    split
+    · simp
+    · exact hfill j' hj'
+
+theorem init_mcr_loop (ne np : Nat) (l : List Nat) (j : Nat) (c : Circuit) (h : InitInv2 c ne np)
+    (hl : ∀ x, x ∈ l → x < np) (hlen : j + l.length ≤ ne) :
+    ∃ c', (l.zipIdx j).foldlM (fun c (tj : Nat × Nat) => c.add (finalMcrOp tj.2 tj.1)) c = Except.ok c' ∧
+      InitInv2 c' ne np := by
+  induction l generalizing j c with
+  | nil => exact ⟨c, rfl, h⟩
+  | cons t l ih =>
+    simp only [List.length_cons] at hlen
+    obtain ⟨c2, hc2, hinv2⟩ := init_mcr_step c ne np j t h (by omega) (hl t List.mem_cons_self)
+    obtain ⟨c', hc', hinv'⟩ := ih (j + 1) c2 hinv2 (fun x hx => hl x (List.mem_cons_of_mem _ hx)) (by omega)
+    refine ⟨c', ?_, hinv'⟩
+    rw [List.zipIdx_cons, List.foldlM_cons]
+    simp only at hc2 ⊢
+    rw [hc2]
+    exact hc'
+
+theorem empty_E (ne np nc : Nat) (a b : V) (h : (Circuit.empty ne np nc).E a b) : ∃ r, a = V.inp r ∧ b = V.out r := by
+  obtain ⟨r, _, hadj⟩ := (E_iff _ _ _).mp h
+  simp only [Adj, Circuit.aug, Circuit.empty, List.map_nil, List.nil_append, pairs_cons_cons, pairs_singleton,
+    List.mem_singleton, Prod.mk.injEq] at hadj
+  exact ⟨r, hadj.1, hadj.2⟩
+
+theorem InitInv_empty (ne np : Nat) : InitInv (Circuit.empty ne np 1) ne np 0 := by
+  refine ⟨⟨?_, ?_, ?_, ?_, ?_, ?_, ?_⟩, ?_, ⟨?_, ?_⟩, rfl, rfl, rfl, ?_, ?_⟩
+  · intro n op h; cases h
+  · intro r _; rfl
+  · intro r n h; cases h
+  · intro r; exact List.nodup_nil
+  · intro n op h; cases h
+  · intro n op h; cases h
+  · intro n op h; cases h
+  · intro v hv
+    rcases TransGen.head'_iff.mp hv with ⟨y, hvy, hyv⟩
+    obtain ⟨r, rfl, rfl⟩ := empty_E _ _ _ _ _ hvy
+    have := reach_from_out _ _ _ hyv
+    cases this
+  · intro n op h; cases h
+  · intro j _; exact Or.inl rfl
+  · intro j hj; omega
+  · intro j _; rfl
+
+/-- **`initialization` succeeds and yields a circuit satisfying the invariant**, for every emission assignment with
+    entries below the number of emitters and every measurement assignment with entries below the number of photons -/
+theorem initialization_emitInv (ea ma : List Nat) (hea : ∀ x, x ∈ ea → x < ma.length) (hma : ∀ x, x ∈ ma → x < ea.length) :
+    ∃ c, initialization ea ma = Except.ok c ∧ c.EmitInv ∧ c.ne = ma.length ∧ c.np = ea.length := by
+  obtain ⟨c1, hc1, hinv1⟩ := init_photon_loop ma.length ea.length ea 0 _ (InitInv_empty _ _) hea (by omega)
+  have hinv1' : InitInv2 c1 ma.length ea.length :=
+    ⟨hinv1.wf, hinv1.ac, hinv1.pre, hinv1.hne, hinv1.hnp, hinv1.hnc, fun j hj => hinv1.filled j (by omega)⟩
+  obtain ⟨c2, hc2, hinv2⟩ := init_mcr_loop ma.length ea.length ma 0 c1 hinv1' hma (by omega)
+  refine ⟨c2, ?_, ⟨hinv2.wf, hinv2.ac, EmitC_of_pre c2 hinv2.pre (fun j hj => hinv2.filled j (by rw [← hinv2.hnp]; exact hj))⟩,
+          hinv2.hne, hinv2.hnp⟩
+  unfold initialization
+  rw [hc1]
+  exact hc2
+
 end Graphiq.Wire
